@@ -7,6 +7,7 @@ CONSTANTS
   CLimits = {1, 2}
   MaxCalls = 2
   MaxDialFail = 1
+  DEAD_ADMITS = FALSE
   DONE_EARLY = FALSE
   DOUBLE_COUNT = TRUE
 INVARIANTS NoRefusalIfEqual
